@@ -195,9 +195,17 @@ def replay_e1(rep, tu=None, workdir=None):
         workdir = workdir or os.path.join(BUILD_ROOT, rep['property'] + '_replay')
         tu = e1.TU(rep['property'], rep['tu'], workdir, rep.get('defines', ()))
         tu.build()
-    exe = tu.build_native(True)
     rf = os.path.join(tu.work, 'replay_in.txt')
     e1.TU.write_replay(rf, rep['choices'], rep['nondet'])
+    if 'lock discipline' in rep.get('assertion', ''):
+        # the obligation is attached to every memory access by the translator: it is confirmed on the natively executed translation
+        # of the real code (gcc build of the generated C with the same runtime model), which checks it by address range
+        exe = tu.build_translated_native(discipline=True)
+        rc, so, se = tu.run_native(exe, rep['entry'], rf, timeout=20)
+        if rc == 42 and 'lock discipline' in se:
+            return True, 'natively executed translation of the real code makes the access with the mutex unlocked: ' + se.strip()[-160:]
+        return False, 'native execution of the translation: exit code %d %s' % (rc, se[-200:])
+    exe = tu.build_native(True)
     rc, so, se = tu.run_native(exe, rep['entry'], rf, timeout=20)
     if rc == 42:
         m = re.search(r'VF_ASSERT_FAILED: (.*)', se)
